@@ -2,14 +2,14 @@ import Qwt.Proofs.DArrayCnt
 import Qwt.Proofs.DArrayInv
 
 /-!
-`DArray::select` (C07, part 2): the word-level representation predicate `BV.Holds`, the
+`DArray::select` (C07, part 2): the word-level representation predicate `BV.HoldsD`, the
 word scan, and the query itself.
 -/
 namespace Qwt.BV
 
 /-- the bit vector `b` holds the bit list `s`: bit `i` is bit `i % 64` of word `i / 64`,
     whole 512-bit lines are allocated, padding bits are zero, words are 64-bit values -/
-structure Holds (b : BitVector) (s : List Bool) : Prop where
+structure HoldsD (b : BitVector) (s : List Bool) : Prop where
   nBits : b.nBits = s.length
   size : b.data.size = 8 * ((s.length + 511) / 512)
   lt : ∀ i (h : i < b.data.size), b.data[i] < 2 ^ 64
@@ -40,7 +40,7 @@ theorem testBit_not64 (a : Nat) (ha : a < 2 ^ 64) (i : Nat) (hi : i < 64) :
   rw [e, Nat.testBit_two_pow_sub_succ ha]
   simp [hi]
 
-theorem effWord_lt {b : BitVector} {s : List Bool} (h : Holds b s) (bit : Bool) (i : Nat) :
+theorem effWord_lt {b : BitVector} {s : List Bool} (h : HoldsD b s) (bit : Bool) (i : Nat) :
     effWord bit b i < 2 ^ 64 := by
   unfold effWord
   cases bit
@@ -50,7 +50,7 @@ theorem effWord_lt {b : BitVector} {s : List Bool} (h : Holds b s) (bit : Bool) 
     · rw [getElem!_pos b.data i hi]; exact h.lt i hi
     · rw [getElem!_neg b.data i hi]; exact Nat.two_pow_pos 64
 
-theorem effBit_eq {b : BitVector} {s : List Bool} (h : Holds b s) (bit : Bool) (p : Nat)
+theorem effBit_eq {b : BitVector} {s : List Bool} (h : HoldsD b s) (bit : Bool) (p : Nat)
     (hp : p < s.length) : effBit bit b p = decide (s[p]! = bit) := by
   have hsz := h.size
   have hp' : p < 64 * b.data.size := by omega
@@ -104,7 +104,7 @@ theorem cnt_word (T : Nat → Bool) (wi lo word : Nat)
 
 /-! ### `getWord` -/
 
-theorem getWord_ok {b : BitVector} {s : List Bool} (h : Holds b s) (i : Nat)
+theorem getWord_ok {b : BitVector} {s : List Bool} (h : HoldsD b s) (i : Nat)
     (hi : i < b.data.size) : getWord b i = .ok b.data[i]! := by
   have hsz := h.size
   unfold getWord nLines
@@ -117,7 +117,7 @@ theorem getWord_ok {b : BitVector} {s : List Bool} (h : Holds b s) (i : Nat)
 /-- The scan loop finds the word of the target position `P` (the `k`-th effective bit):
     it starts in word `wi ≤ P / 64` with `rem` matches still to skip from bit `lo` of that
     word on, never leaves the vector and needs at most `P / 64 - wi + 1` rounds. -/
-theorem scan_ok {b : BitVector} {s : List Bool} (h : Holds b s) (bit : Bool) (P k : Nat)
+theorem scan_ok {b : BitVector} {s : List Bool} (h : HoldsD b s) (bit : Bool) (P k : Nat)
     (hP : effBit bit b P = true) (hk : cnt (effBit bit b) P = k) (hPlt : P < 64 * b.data.size) :
     ∀ (fuel wi word rem lo : Nat), lo < 64 → word < 2 ^ 64 →
       (∀ q, q < 64 → word.testBit q = (decide (lo ≤ q) && effBit bit b (64 * wi + q))) →
@@ -200,9 +200,15 @@ def SelectInWordSpec : Prop :=
   ∀ w k, w < 2 ^ 64 → k < 128 → Utils.selectInWord w k =
     .ok (match Spec.select true k (Spec.bitsOf w 64) with | some p => p | none => 64)
 
+/-- the hypothesis on the position iterator of the bit vector (property C08): it yields
+    the positions of `bit` in `s` in increasing order -/
+def PosIterSpec (b : BitVector) (s : List Bool) : Prop :=
+  ∀ bit, PosIter.collect bit b (b.nBits + 1) PosIter.new =
+    (List.range s.length).filter (fun i => s[i]! = bit)
+
 /-- `select` on a vector holding `s`, given inventories satisfying the invariant for the
     list `ps` of the positions of `bit` -/
-theorem select_core {b : BitVector} {s : List Bool} (hb : Holds b s) (bit : Bool)
+theorem select_core {b : BitVector} {s : List Bool} (hb : HoldsD b s) (bit : Bool)
     (hsel : SelectInWordSpec) (d : DArray) (hd : d.bv = b) (inv : Inventories)
     (hn : inv.nSets = ((List.range s.length).filter (fun i => decide (s[i]! = bit))).length)
     (hinv : InvSpec ((List.range s.length).filter (fun i => decide (s[i]! = bit))) inv) (k : Nat) :
